@@ -52,7 +52,7 @@ def toks (sh : Shared) : Expr → Bool → Option BinOp → List Tok
   | .lit l, _, _ => litToks l
   | .ident s, _, _ => [.id s]
   | .bin o a b, paren, prev =>
-    (if binParen o paren prev then [.lp] else []) ++ toks sh a true (some o) ++ [.op o] ++ toks sh b true (some o)
+    (if binParen o paren prev then [.lp] else []) ++ toks sh a true (some o) ++ [.op o] ++ toks sh b true (rprev o)
       ++ (if binParen o paren prev then [.rp] else [])
   | .neg a, paren, _ => (if paren then [.lp] else []) ++ [.op .minus] ++ toks sh a true none ++ (if paren then [.rp] else [])
   | .not a, paren, _ => (if paren then [.lp] else []) ++ [.not] ++ toks sh a true none ++ (if paren then [.rp] else [])
@@ -218,11 +218,6 @@ def attach (o : BinOp) (l : Expr) : Expr → Expr
   | .bin o' r1 r2 => if o' = o then .bin o (attach o l r1) r2 else .bin o l (.bin o' r1 r2)
   | r => .bin o l r
 
-/-- operators that are associative in EXPRESS (ISO 10303-11 clause 12): the specification side of "redundant parentheses" -/
-def BinOp.assocInExpress : BinOp → Bool
-  | .and | .or | .xor | .plus | .times | .concat => true
-  | _ => false
-
 /-- re-association to the left of chains of one operator `o` with `f o` -/
 def normWith (f : BinOp → Bool) : Expr → Expr
   | .bin o a b => if f o then attach o (normWith f a) (normWith f b) else .bin o (normWith f a) (normWith f b)
@@ -239,14 +234,15 @@ def normWith (f : BinOp → Bool) : Expr → Expr
   | .rep e c t => .rep (normWith f e) (normWith f c) (normWith f t)
   | e => e
 
-/-- what the parser reads back from exppp's text: chains are flattened exactly where exppp omits parentheses -/
-def norm : Expr → Expr := normWith BinOp.omitSame
+/-- what the parser reads back from exppp's text: a chain is regrouped to the left exactly where exppp omits the parentheses of a
+RIGHT operand (`chainR`).  Where it does not (`rightOperandSeesParent = false`) this is the identity: no re-association is assumed
+harmless — the operators are overloaded (`s + (a + b)` adds one element to the aggregate `s`, `(s + a) + b` two) and the printer
+has no operand types. -/
+def norm : Expr → Expr := normWith BinOp.chainR
 
-/-- the specification's normal form: only operators that are associative in EXPRESS are re-associated -/
-def normSpec : Expr → Expr := normWith BinOp.assocInExpress
-
-/-- "up to the splitting of string literals": adjacent simple string literals in a (left-nested) chain of `+` are joined.
-Applied after `normSpec` to both sides by the oracle. -/
+/-- "up to the splitting of string literals": a sum of two simple string LITERALS — which is what `breakLongStr` makes of one
+literal, piece by piece, left-nested — is the literal of the concatenation (both operands are strings, so `+` is concatenation).
+Nothing else is joined: `(x + 'a') + 'b'` is not `x + 'ab'` (x may be an aggregate).  Applied to both sides by the oracle. -/
 def joinStr : Expr → Expr
   | .bin o a b =>
     let a' := joinStr a
@@ -254,7 +250,6 @@ def joinStr : Expr → Expr
     if o = .plus then
       match a', b' with
       | .lit (.str s1), .lit (.str s2) => .lit (.str (s1 ++ s2))
-      | .bin .plus x (.lit (.str s1)), .lit (.str s2) => .bin .plus x (.lit (.str (s1 ++ s2)))
       | _, _ => .bin o a' b'
     else .bin o a' b'
   | .neg a => .neg (joinStr a)
